@@ -9,7 +9,7 @@ from props.c10 import stack_sig, IDENT, SNAP
 
 LEVEL = "proof"
 MANIFEST = dict(
-    text="Lean 4: a macro-step machine of the manager over facts regenerated from the source (the sequence pump's locate / connect / retry-after-not-found rules, the "
+    text="Lean 4: a macro-step machine of the manager over facts regenerated from the source (the sequence pump's locate / connect / retry-after-not-found rules, the  Session 4: the guard of the retry-exceeded branch is a generated fact (retryExceededNeedsSpa), abandoned_attempt_is_ignored is a theorem (the late failure report of a connection attempt abandoned by a reset cannot move a manager without a spa; genuine defect D8c, fix 4611c09), and the script reset-in-last-retry (resets during the last retry of a failing handshake request) is part of every run."
          "ping-received reset rule, where failure events land, the LOCATING_FINISHED guard, whether the pump survives exceptions). Its record space is finite: one-step "
          "facts are kernel evaluations over the WHOLE space, lifted by induction to fault scripts of any length: coherence of every reachable record; the FULL "
          "statement recovery_after_every_script (after ANY fault script - loss, blackouts, RF-error periods, resets at any moment incl. inside a discovery or inside "
